@@ -75,6 +75,9 @@ def run(ctx) -> None:
                       "is not left behind as if it had been keyed) (R16.3, shared)")
     c16.publish_rule(ctx, c16.Names(ctx), "R05.8")
     r05_9(ctx)
+    from . import lockstep
+    lockstep.zip_longest_table(ctx, "R05.10")  # (shared with R01.11: rows and items taken per source)
+    ctx.floor("zip_longest_cells_decided", 100)
     ctx.floor("tools", 20)
     ctx.floor("pull_sites", 15)
     ctx.floor("short_circuit_cells", 6)
